@@ -44,12 +44,16 @@ static void* vf_memset(void* d, int c, size_t n) {
   return d;
 }
 static int vf_memcmp(const void* a, const void* b, size_t n) {
+  /* no early exit: the result is selected with conditional expressions so that path-by-path exploration does not fork per byte */
   const unsigned char* x = (const unsigned char*)a;
   const unsigned char* y = (const unsigned char*)b;
   size_t i;
-  for (i = 0; i < n; i++)
-    if (x[i] != y[i]) return x[i] < y[i] ? -1 : 1;
-  return 0;
+  int r = 0;
+  for (i = 0; i < n; i++) {
+    int d = (x[i] > y[i]) - (x[i] < y[i]);
+    r = (r != 0) ? r : d;
+  }
+  return r;
 }
 static size_t vf_strlen(const char* s) {
   size_t i = 0;
